@@ -168,6 +168,21 @@ func genOrder(r *rand.Rand, i int) *Program {
 		a.Prio = []int{-9223372036854775808, -1, 0, 0, 1, 1, 2, 9223372036854775807}[r.Intn(8)]
 		th = append(th, a)
 	}
+	if r.Intn(3) == 0 {
+		// one batch, large enough for any size-dependent code path in the batch submission
+		// (slices.Sort* switch algorithm at 12 elements), priorities mixed and repeated
+		m := 3 + r.Intn(40)
+		var ks, prios []int
+		for j := 0; j < m; j++ {
+			ks = append(ks, g.k)
+			g.k++
+			prios = append(prios, r.Intn(4))
+		}
+		b := Op{Op: "addall", B: 0, Ks: ks, Prios: prios}
+		at := r.Intn(len(th) + 1)
+		th = append(th[:at], append([]Op{b}, th[at:]...)...)
+		p.Steps = 100000
+	}
 	th = append(th, Op{Op: "resume"}, Op{Op: "wuf"})
 	p.Threads = [][]Op{th}
 	return p
@@ -512,6 +527,11 @@ func genStatus(r *rand.Rand, i int) *Program {
 		}
 	}
 	p.Threads = [][]Op{a, b}
+	if r.Intn(3) == 0 {
+		// an owner that closes its handle as soon as the outcome is delivered
+		k := r.Intn(g.k)
+		p.Threads = append(p.Threads, []Op{{Op: "jresult", K: k}, {Op: "jclose", K: k}, {Op: "jstatus", K: k}})
+	}
 	return p
 }
 
